@@ -67,7 +67,7 @@ COMPONENTS = {
 }
 
 
-def write_evidence(prop, tier, seed, results, wall, violations, known_lines, internal):
+def write_evidence(prop, tier, seed, results, wall, violations, known_lines, internal, extra=None):
     evals = Counter()
     distinct = set()
     samples = []
@@ -155,6 +155,8 @@ def write_evidence(prop, tier, seed, results, wall, violations, known_lines, int
         "wall_s": round(wall, 2),
         "violations": violations,
     }
+    if extra:
+        ev["coverage"].update(extra)
     os.makedirs(os.path.join(OUT, "evidence"), exist_ok=True)
     with open(os.path.join(OUT, "evidence", prop + ".json"), "w") as f:
         json.dump(ev, f, indent=1, sort_keys=True, default=repr)
@@ -183,6 +185,20 @@ def report_violation(prop, r, known):
 def do_replay(prop, path):
     with open(path) as f:
         data = json.load(f)
+    if data.get("cold_start"):
+        import coldstart
+
+        v, err, _ = coldstart.probe(data["wal"])
+        if err:
+            print("INTERNAL " + err)
+            return 2
+        if v:
+            print("replayed: C05/%s" % v["check"])
+            print(json.dumps({k: x for k, x in v["detail"].items() if k != "wal"}, indent=1, default=repr)[:4000])
+            print("VIOLATION property=%s replay=%s" % (prop, path))
+            return 1
+        print("replay did not violate %s (cold-start log replayed identically)" % prop)
+        return 0
     known = runner.load_known()
     res = runner.run_replay(prop, data["cfg"], data["trace"], known)
     if res["internal"]:
@@ -254,7 +270,32 @@ def main():
         print("violation %s/%s shape=%s seed=%d" % (prop, v["check"], v["detail"].get("shape"), r["seed"]))
         out_lines.append("VIOLATION property=%s replay=%s" % (prop, path))
         rc = 1
-    probes, stats = write_evidence(prop, tier, a.seed, results, wall, len(out_lines), known_lines, internal[:3])
+    cold_info = None
+    if prop == "C05":
+        import coldstart
+
+        cv, cerr, cold_info = coldstart.probe()
+        if cerr:
+            internal.append(cerr)
+        elif cv:
+            os.makedirs(os.path.join(OUT, "replays"), exist_ok=True)
+            cpath = os.path.join(OUT, "replays", "C05-coldstart.json")
+            with open(cpath, "w") as f:
+                json.dump({"property": "C05", "cold_start": True, "wal": cv["detail"]["wal"],
+                           "violation": {"prop": "C05", "check": cv["check"],
+                                         "detail": {k: x for k, x in cv["detail"].items() if k != "wal"}}},
+                          f, indent=1, default=repr)
+            # confirm it replays before reporting it
+            v2, e2, _ = coldstart.probe(cv["detail"]["wal"])
+            if v2 and v2["check"] == cv["check"]:
+                print("violation C05/%s shape=%s (fresh process replaying a log of all eight step types)" % (
+                    cv["check"], cv["detail"].get("shape")))
+                out_lines.append("VIOLATION property=C05 replay=%s" % cpath)
+                rc = 1
+            else:
+                internal.append("cold-start violation did not replay from " + cpath)
+    probes, stats = write_evidence(prop, tier, a.seed, results, wall, len(out_lines), known_lines, internal[:3],
+                                   extra={"cold_start_restart_probe": cold_info} if cold_info else None)
     runs_done = len([r for r in results if r["seed"] is not None])
     print("runs=%d events=%d wall=%.1fs evaluations=%d" % (
         runs_done, sum(r["events"] for r in results), wall, sum(r["evals"].get(prop, 0) for r in results)))
